@@ -1,6 +1,8 @@
 (* C03 model, part 1: the element-lifetime events of static_vector with NON-TRIVIAL storage
-   (include/etl/_vector/static_vector.hpp) and inplace_vector
-   (include/etl/_inplace_vector/inplace_vector.hpp).
+   (include/etl/_vector/static_vector.hpp), inplace_vector
+   (include/etl/_inplace_vector/inplace_vector.hpp) and the adapters over a static_vector:
+   stack (_stack/stack.hpp: its members are the vector's push_back / emplace_back / pop_back / swap),
+   static_set (_set/static_set.hpp) and flat_set (_flat_set/flat_set.hpp).
 
    The model is the control flow of the header, written as a generator of lifetime events
    (C03.Trace): each constructor / assignment / destructor call of the element type that the
@@ -76,6 +78,106 @@ Definition bind {A B} (g : G A) (f : A -> G B) : G B :=
 Notation "'do' x <- a ; b" := (bind a (fun x => b)) (at level 200, x name, a at level 100, b at level 200).
 Notation "'exe' a ; b" := (bind a (fun _ => b)) (at level 200, a at level 100, b at level 200).
 
+(** * histories, generically: two objects whose state is a pair of numbers (sizes / active indices),
+   a step function that emits the events of one operation, the events of the two destructors *)
+Record report := {
+  r_done : bool;                      (* false: the step ended in a contract violation / fuel *)
+  r_fuel : bool;
+  r_obs : list Z * list Z;            (* observation of the two objects after the step *)
+  r_ok : bool;                        (* every event of the step legal *)
+  r_toks : list (loc * ptok);         (* the projection of the step *)
+  r_tmp : nat;                        (* objects outside the two persistent storages alive after the step *)
+  r_raw : list event                  (* the raw events (diagnostics only) *)
+}.
+
+Definition persistent (l : loc) : bool := match l with Slot c _ => c <? 2 | _ => false end.
+Definition tmp_alive (a : amap) : nat := length (filter (fun l => negb (persistent l)) (alive_locs a)).
+
+Definition completed (steps : list (list event * oc (nat * nat))) : bool :=
+  forallb (fun st => match snd st with Done _ => true | _ => false end) steps.
+
+Section Generic.
+Context {O : Type}.
+Variable stp : nat * nat -> vmem -> O -> G (nat * nat).
+Variable fin : nat * nat -> list event.
+Variable obs : vmem -> nat * nat -> list Z * list Z.
+Variable self_of : O -> option bool.
+Variable s0 : nat * nat.        (* the state of the two objects when the history starts ... *)
+Variable ini : list event.      (* ... and the events of their construction *)
+
+Fixpoint grun (s : nat * nat) (m : vmem) (ops : list O) : list (list event * oc (nat * nat)) * (nat * nat) * vmem :=
+  match ops with
+  | [] => ([], s, m)
+  | o :: rest =>
+      let g := stp s m o in
+      let m' := exec_all m (fst g) in
+      match snd g with
+      | Done s' => let r := grun s' m' rest in ((fst g, Done s') :: fst (fst r), snd (fst r), snd r)
+      | Stop => ([(fst g, Stop)], s, m')
+      | Fuel => ([(fst g, Fuel)], s, m')
+      end
+  end.
+
+Definition gtrace (ops : list O) : list event :=
+  let r := grun s0 (exec_all [] ini) ops in
+  ini ++ concat (map fst (fst (fst r))) ++ fin (snd (fst r)).
+
+Definition ghistory_completed (ops : list O) : bool := completed (fst (fst (grun s0 (exec_all [] ini) ops))).
+
+(* what the correspondence prints: per step the observation and the lifecycle projection *)
+Fixpoint greports (s : nat * nat) (m : vmem) (a : amap) (ops : list O) : list report * (nat * nat) * amap :=
+  match ops with
+  | [] => ([], s, a)
+  | o :: rest =>
+      let g := stp s m o in
+      let m' := exec_all m (fst g) in
+      let mon := monitor a (fst g) in
+      let a' := snd (fst mon) in
+      let mk (d f : bool) (s' : nat * nat) :=
+        {| r_done := d; r_fuel := f; r_obs := obs m' s';
+           r_ok := fst (fst mon); r_toks := snd mon; r_tmp := tmp_alive a'; r_raw := fst g |} in
+      match snd g with
+      | Done s' => let r := greports s' m' a' rest in (mk true false s' :: fst (fst r), snd (fst r), snd r)
+      | Stop => ([mk false false s], s, a')
+      | Fuel => ([mk false true s], s, a')
+      end
+  end.
+
+(* the whole case: the step reports, the report of the final destructors, the verdict (wf, alive) *)
+Definition grun_case (ops : list O) : list report * report * (bool * nat) :=
+  let mon0 := monitor [] ini in
+  let r := greports s0 (exec_all [] ini) (snd (fst mon0)) ops in
+  let s := snd (fst r) in
+  let fin_evs := fin s in
+  let mon := monitor (snd r) fin_evs in
+  let frep := {| r_done := true; r_fuel := false; r_obs := ([], []); r_ok := fst (fst mon); r_toks := snd mon;
+                 r_tmp := tmp_alive (snd (fst mon)); r_raw := fin_evs |} in
+  (fst (fst r), frep,
+   (fst (fst mon0) && forallb r_ok (fst (fst r)) && fst (fst mon), alive_count (snd (fst mon)))).
+
+(* self-operations: is the observation of the object after the step the one before it *)
+Fixpoint gself_checks (s : nat * nat) (m : vmem) (ops : list O) : list bool :=
+  match ops with
+  | [] => []
+  | o :: rest =>
+      let g := stp s m o in
+      let m' := exec_all m (fst g) in
+      match snd g with
+      | Done s' =>
+          let tl := gself_checks s' m' rest in
+          match self_of o with
+          | Some t =>
+              let pick (p : list Z * list Z) := if t then snd p else fst p in
+              let before := pick (obs m s) in
+              let after := pick (obs m' s') in
+              (if list_eq_dec Z.eq_dec before after then true else false) :: tl
+          | None => tl
+          end
+      | _ => []
+      end
+  end.
+End Generic.
+
 (** * etl::rotate as the sequence of iter_swap index pairs (rotate.hpp) *)
 (* the while loop: exactly last - read iterations *)
 Fixpoint rot_loop (iters write read nextRead : nat) : list (nat * nat) * nat * nat :=
@@ -120,6 +222,24 @@ Definition remove_if_idx (p : Z -> bool) (vals : list Z) : list (nat * nat) * na
   if first =? length vals then ([], first)
   else remove_loop p (skipn (S first) vals) first (S first).
 
+(** * lower_bound.hpp / upper_bound.hpp: the binary search, as the index it returns.
+   [go_right v]: comp( *it, value) for lower_bound, !comp(value, *it) for upper_bound *)
+Fixpoint bsearch_loop (fuel : nat) (go_right : Z -> bool) (vals : list Z) (first count : nat) : nat :=
+  match fuel with
+  | O => first
+  | S k =>
+      if count =? 0 then first
+      else
+        let step := count / 2 in
+        if go_right (nth (first + step) vals 0%Z)
+        then bsearch_loop k go_right vals (first + step + 1) (count - (step + 1))
+        else bsearch_loop k go_right vals first step
+  end.
+Definition bsearch (go_right : Z -> bool) (vals : list Z) : nat :=
+  bsearch_loop (S (length vals)) go_right vals 0 (length vals).
+Definition lower_idx (vals : list Z) (x : Z) : nat := bsearch (fun v => (v <? x)%Z) vals.
+Definition upper_idx (vals : list Z) (x : Z) : nat := bsearch (fun v => negb (x <? v)%Z) vals.
+
 (** * histories on two objects (container ids 0 and 1) *)
 Inductive op :=
 | PushBackRv (t : bool) (x : Z)          (* v.push_back(T(x)) *)
@@ -151,7 +271,18 @@ Inductive op :=
 (* inplace_vector only *)
 | IvTryPushCr (t : bool) (x : Z) | IvTryPushRv (t : bool) (x : Z) | IvTryEmplace (t : bool) (x : Z)
 | IvUncheckedPushCr (t : bool) (x : Z) | IvUncheckedPushRv (t : bool) (x : Z) | IvUncheckedEmplace (t : bool) (x : Z)
-| IvCopyConstruct (t : bool) | IvMoveConstruct (t : bool).
+| IvCopyConstruct (t : bool) | IvMoveConstruct (t : bool)
+| IvCopyAssign (t : bool) | IvMoveAssign (t : bool)          (* vt = vother; vt = move(vother) *)
+| IvSelfCopyAssign (t : bool) | IvSelfMoveAssign (t : bool)
+(* static_set<T, N> (a sorted static_vector _storage; the other members are the vector's) *)
+| SetInsertRv (t : bool) (x : Z)          (* T c(x); s.insert(move(c)) *)
+| SetInsertCr (t : bool) (x : Z)          (* T c(x); s.insert(c) *)
+| SetEmplace (t : bool) (x : Z)           (* s.emplace(x) *)
+| SetEraseKey (t : bool) (x : Z)          (* T c(x); s.erase(c) *)
+(* flat_set<T, static_vector<T, N>> *)
+| FlatInsertRv (t : bool) (x : Z) | FlatInsertCr (t : bool) (x : Z)
+| FlatEmplace (t : bool) (x : Z)
+| FlatEraseKey (t : bool) (x : Z).
 
 Definition cid (t : bool) : nat := if t then 1 else 0.
 Definition sel (t : bool) (s : nat * nat) : nat := if t then snd s else fst s.
@@ -255,13 +386,14 @@ Definition insert_rv (c n pos : nat) (src : loc) : G nat :=
   exe require (negb (n =? cap)) ; exe require (pos <=? n) ; move_insert c n pos [src].
 Definition insert_cr (c n pos : nat) (src : loc) : G nat :=
   exe require (negb (n =? cap)) ; exe require (pos <=? n) ; insert_n c n pos 1 src.
-Definition emplace_at (c n pos : nat) (x : Z) : G nat :=
+Definition emplace_at_h (c n pos : nat) (h : how) : G nat :=
   exe require (negb (n =? cap)) ;
   exe require (pos <=? n) ;
-  exe emit [Construct (Temp 1) (Value x)] ; (* value_type a(args...) *)
+  exe emit [Construct (Temp 1) h] ; (* value_type a(args...) *)
   do n' <- move_insert c n pos [Temp 1] ;
   exe emit [Destroy (Temp 1)] ;
   ret n'.
+Definition emplace_at (c n pos : nat) (x : Z) : G nat := emplace_at_h c n pos (Value x).
 
 (* clear(): unsafe_destroy_all(); unsafe_set_size(0) *)
 Definition clear (c n : nat) : G nat := exe emit (destroys c 0 n) ; ret 0.
@@ -305,6 +437,31 @@ Definition assign_n (c n k : nat) (src : loc) : G nat :=
 Definition assign_range (c n : nat) (srcs : list loc) : G nat :=
   exe require (length srcs <=? cap) ; do n0 <- clear c n ; insert_range c n0 0 srcs.
 
+(** ** static_set members; vals = the current element values (the comparisons read them) *)
+(* insert(value_type&&): lower_bound; equivalent key present -> nothing; full -> nothing;
+   else _storage.push_back(move(value)); rotate(p, end() - 1, end()) *)
+Definition set_insert (c n : nat) (vals : list Z) (x : Z) (src : loc) : G nat :=
+  let p := lower_idx vals x in
+  if (p <? n) && negb (x <? nth p vals 0%Z)%Z then ret n
+  else if n =? cap then ret n
+  else do n' <- push_back c n (mv src) ; exe rotate_g c p n n' ; ret n'.
+(* erase(key): lower_bound; found -> _storage.erase(pos) *)
+Definition set_erase_key (c n : nat) (vals : list Z) (x : Z) : G nat :=
+  let p := lower_idx vals x in
+  if (p <? n) && negb (x <? nth p vals 0%Z)%Z then erase_at c n p else ret n.
+
+(** ** flat_set members *)
+(* emplace(args...): auto key = Key{args...}; lower_bound; new -> _container.emplace(it, move(key)) *)
+Definition flat_emplace (c n : nat) (vals : list Z) (x : Z) (h : how) : G nat :=
+  exe emit [Construct (Temp 2) h] ;
+  let p := lower_idx vals x in
+  do n' <- (if (p =? n) || (x <? nth p vals 0%Z)%Z then emplace_at_h c n p (mv (Temp 2)) else ret n) ;
+  exe emit [Destroy (Temp 2)] ;
+  ret n'.
+(* erase(key): equal_range; erase(first, second) *)
+Definition flat_erase_key (c n : nat) (vals : list Z) (x : Z) : G nat :=
+  erase_range c n (lower_idx vals x) (upper_idx vals x).
+
 (* constructors build into a fresh object (size 0); assignment from ANOTHER object (the
    self-assignment early return is the caller's case split) *)
 Definition copy_construct (c o m : nat) : G nat := insert_range c 0 0 (slots o m).
@@ -344,6 +501,13 @@ Definition iv_copy_construct (c o m : nat) : G nat := exe emit (constructs c 0 (
 Definition iv_move_construct (c o m : nat) : G (nat * nat) :=
   exe emit (constructs c 0 (map mv (slots o m))) ; do m' <- iv_clear o m ; ret (m, m').
 
+(* copy assignment: if (this != &other) { clear(); uninitialized_copy; size = other.size }
+   move assignment: ... uninitialized_move; size = other.size; other.clear() *)
+Definition iv_copy_assign (c n o m : nat) : G nat :=
+  do n0 <- iv_clear c n ; exe emit (constructs c n0 (map Copy (slots o m))) ; ret m.
+Definition iv_move_assign (c n o m : nat) : G (nat * nat) :=
+  do n0 <- iv_clear c n ; exe emit (constructs c n0 (map mv (slots o m))) ; do m' <- iv_clear o m ; ret (m, m').
+
 Variable iv : bool.   (* the objects are inplace_vectors *)
 
 Definition step_sv (s : nat * nat) (m : vmem) (o : op) : G (nat * nat) :=
@@ -382,6 +546,22 @@ Definition step_sv (s : nat * nat) (m : vmem) (o : op) : G (nat * nat) :=
   | SelfCopyAssign t => ret s            (* if (this == &other) return *this; *)
   | SelfMoveAssign t => ret s
   | SelfSwap t => do r <- swap_vec (cid t) (sel t s) (cid t) (sel t s) ; ret (upd t s (fst r))
+  | SetInsertRv t x => on t (with_ext [x] (set_insert (cid t) (sel t s) (elems m (cid t) (sel t s)) x (Ext 0)))
+  | SetInsertCr t x =>
+      (* value_type tmp = value; return insert(move(tmp)); *)
+      on t (with_ext [x] (exe emit [Construct (Temp 1) (Copy (Ext 0))] ;
+                          do n' <- set_insert (cid t) (sel t s) (elems m (cid t) (sel t s)) x (Temp 1) ;
+                          exe emit [Destroy (Temp 1)] ; ret n'))
+  | SetEmplace t x =>
+      (* insert(value_type(args...)) *)
+      on t (exe emit [Construct (Temp 1) (Value x)] ;
+            do n' <- set_insert (cid t) (sel t s) (elems m (cid t) (sel t s)) x (Temp 1) ;
+            exe emit [Destroy (Temp 1)] ; ret n')
+  | SetEraseKey t x => on t (with_ext [x] (set_erase_key (cid t) (sel t s) (elems m (cid t) (sel t s)) x))
+  | FlatInsertRv t x => on t (with_ext [x] (flat_emplace (cid t) (sel t s) (elems m (cid t) (sel t s)) x (mv (Ext 0))))
+  | FlatInsertCr t x => on t (with_ext [x] (flat_emplace (cid t) (sel t s) (elems m (cid t) (sel t s)) x (Copy (Ext 0))))
+  | FlatEmplace t x => on t (flat_emplace (cid t) (sel t s) (elems m (cid t) (sel t s)) x (Value x))
+  | FlatEraseKey t x => on t (with_ext [x] (flat_erase_key (cid t) (sel t s) (elems m (cid t) (sel t s)) x))
   | _ => ret s                           (* not a static_vector operation: never generated *)
   end.
 
@@ -399,7 +579,11 @@ Definition step_iv (s : nat * nat) (m : vmem) (o : op) : G (nat * nat) :=
   | IvCopyConstruct t => do k <- iv_copy_construct 2 (cid t) (sel t s) ; exe emit (iv_destructor 2 k) ; ret s
   | IvMoveConstruct t =>
       do r <- iv_move_construct 2 (cid t) (sel t s) ; exe emit (iv_destructor 2 (fst r)) ; ret (upd t s (snd r))
-  | _ => ret s
+  | IvCopyAssign t => on t (iv_copy_assign (cid t) (sel t s) (cid (negb t)) (sel (negb t) s))
+  | IvMoveAssign t =>
+      do r <- iv_move_assign (cid t) (sel t s) (cid (negb t)) (sel (negb t) s) ;
+      ret (upd (negb t) (upd t s (fst r)) (snd r))
+  | _ => ret s                           (* incl. the self assignments: this == &other *)
   end.
 
 Definition step (s : nat * nat) (m : vmem) (o : op) : G (nat * nat) :=
@@ -410,95 +594,30 @@ Definition final_events (s : nat * nat) : list event :=
   destructor 0 (fst s) ++ destructor 1 (snd s).
 
 (* per step: its events and how it ended; the history stops at the first Stop / Fuel *)
-Fixpoint run (s : nat * nat) (m : vmem) (ops : list op) : list (list event * oc (nat * nat)) * (nat * nat) * vmem :=
-  match ops with
-  | [] => ([], s, m)
-  | o :: rest =>
-      let g := step s m o in
-      let m' := exec_all m (fst g) in
-      match snd g with
-      | Done s' => let r := run s' m' rest in ((fst g, Done s') :: fst (fst r), snd (fst r), snd r)
-      | Stop => ([(fst g, Stop)], s, m')
-      | Fuel => ([(fst g, Fuel)], s, m')
-      end
-  end.
-
-Definition completed (steps : list (list event * oc (nat * nat))) : bool :=
-  forallb (fun st => match snd st with Done _ => true | _ => false end) steps.
+Definition run : nat * nat -> vmem -> list op -> list (list event * oc (nat * nat)) * (nat * nat) * vmem :=
+  grun step.
 
 (* every event of a history, the destructors of the two objects included *)
-Definition trace (ops : list op) : list event :=
-  let r := run (0, 0) [] ops in
-  concat (map fst (fst (fst r))) ++ final_events (snd (fst r)).
+Definition trace (ops : list op) : list event := gtrace step final_events (0, 0) [] ops.
 
-Definition history_completed (ops : list op) : bool := completed (fst (fst (run (0, 0) [] ops))).
+Definition history_completed (ops : list op) : bool := ghistory_completed step (0, 0) [] ops.
 
 End Vec.
 
-(** * what the correspondence prints: per step the observation and the lifecycle projection *)
-Record report := {
-  r_done : bool;                      (* false: the step ended in a contract violation / fuel *)
-  r_fuel : bool;
-  r_obs : list Z * list Z;            (* element values of the two objects after the step *)
-  r_ok : bool;                        (* every event of the step legal *)
-  r_toks : list (loc * ptok);         (* the projection of the step *)
-  r_tmp : nat;                        (* objects outside the two persistent storages alive after the step *)
-  r_raw : list event                  (* the raw events (diagnostics only) *)
-}.
+(** * what the correspondence prints for the vector families *)
+Definition obs_vec (m : vmem) (s : nat * nat) : list Z * list Z := (elems m 0 (fst s), elems m 1 (snd s)).
 
-Definition persistent (l : loc) : bool := match l with Slot c _ => c <? 2 | _ => false end.
-Definition tmp_alive (a : amap) : nat := length (filter (fun l => negb (persistent l)) (alive_locs a)).
+Definition reports (fl : bool) (cap : nat) (iv : bool) := greports (step fl cap iv) obs_vec.
 
-Fixpoint reports (fl : bool) (cap : nat) (iv : bool) (s : nat * nat) (m : vmem) (a : amap) (ops : list op)
-  : list report * (nat * nat) * amap :=
-  match ops with
-  | [] => ([], s, a)
-  | o :: rest =>
-      let g := step fl cap iv s m o in
-      let m' := exec_all m (fst g) in
-      let mon := monitor a (fst g) in
-      let a' := snd (fst mon) in
-      let mk (d f : bool) (s' : nat * nat) :=
-        {| r_done := d; r_fuel := f; r_obs := (elems m' 0 (fst s'), elems m' 1 (snd s'));
-           r_ok := fst (fst mon); r_toks := snd mon; r_tmp := tmp_alive a'; r_raw := fst g |} in
-      match snd g with
-      | Done s' => let r := reports fl cap iv s' m' a' rest in (mk true false s' :: fst (fst r), snd (fst r), snd r)
-      | Stop => ([mk false false s], s, a')
-      | Fuel => ([mk false true s], s, a')
-      end
-  end.
-
-(* the whole case: the step reports, the report of the final destructors, the verdict (wf, alive) *)
 Definition run_case (fl : bool) (cap : nat) (iv : bool) (ops : list op) : list report * report * (bool * nat) :=
-  let r := reports fl cap iv (0, 0) [] [] ops in
-  let s := snd (fst r) in
-  let fin := final_events s in
-  let mon := monitor (snd r) fin in
-  let frep := {| r_done := true; r_fuel := false; r_obs := ([], []); r_ok := fst (fst mon); r_toks := snd mon;
-                 r_tmp := tmp_alive (snd (fst mon)); r_raw := fin |} in
-  (fst (fst r), frep,
-   (forallb r_ok (fst (fst r)) && fst (fst mon), alive_count (snd (fst mon)))).
+  grun_case (step fl cap iv) final_events obs_vec (0, 0) [] ops.
 
 (* self-operations: is the value after the step the value before it (per self-op of the history) *)
 Definition is_self_op (o : op) : option bool :=
-  match o with SelfCopyAssign t | SelfMoveAssign t | SelfSwap t => Some t | _ => None end.
-
-Fixpoint self_checks (fl : bool) (cap : nat) (iv : bool) (s : nat * nat) (m : vmem) (ops : list op) : list bool :=
-  match ops with
-  | [] => []
-  | o :: rest =>
-      let g := step fl cap iv s m o in
-      let m' := exec_all m (fst g) in
-      match snd g with
-      | Done s' =>
-          let tl := self_checks fl cap iv s' m' rest in
-          match is_self_op o with
-          | Some t =>
-              let before := elems m (cid t) (sel t s) in
-              let after := elems m' (cid t) (sel t s') in
-              (if list_eq_dec Z.eq_dec before after then true else false) :: tl
-          | None => tl
-          end
-      | _ => []
-      end
+  match o with
+  | SelfCopyAssign t | SelfMoveAssign t | SelfSwap t | IvSelfCopyAssign t | IvSelfMoveAssign t => Some t
+  | _ => None
   end.
+
+Definition self_checks (fl : bool) (cap : nat) (iv : bool) (s : nat * nat) (m : vmem) (ops : list op) : list bool :=
+  gself_checks (step fl cap iv) obs_vec is_self_op s m ops.
